@@ -619,5 +619,20 @@ where
     }
 }
 
+/// Subject names are `Base` or `Base@variant` (shadow builds of non-native code).
+pub fn base_name(name: &str) -> &str {
+    name.split('@').next().unwrap()
+}
+pub fn variant_of(name: &str) -> &str {
+    name.split_once('@').map(|x| x.1).unwrap_or("")
+}
+/// `Aes128@armv8` + "Enc" -> `Aes128Enc@armv8`
+pub fn with_suffix(name: &str, suffix: &str) -> String {
+    match name.split_once('@') {
+        Some((b, v)) => format!("{b}{suffix}@{v}"),
+        None => format!("{name}{suffix}"),
+    }
+}
+
 pub const CAPS_FULL: Caps = Caps { enc: true, dec: true, clone: true };
 
